@@ -262,6 +262,132 @@ func checkC08(ctx *core.Ctx, rep *core.Report) {
 			rep.Inc("chains")
 		}
 	}
+	c08ConfigHistories(ctx, rep, g, gdesc, &idx)
 	// Filter from every state of the registry, not only the start-up one (reghist.go)
 	regHistories(ctx, rep, "C08", map[string]bool{"filter": true}, regHistDepth(ctx))
+}
+
+// c08ConfigHistories: "inherits the configuration" from every state of the source registry, not only its first one.
+// Every history of ≤ depth operations over
+//
+//	f0 f1 f2   parent.Filter(o_i) (three fixed option sets — the same options come back within a history)
+//	p1 p2      parent.SetConfiguration(c1 / c2)
+//	rc         (last result).SetConfiguration(marker)
+//
+// on a parent registry of its own (a full copy of the global registry obtained through an always-true name pattern that
+// is different for every history, so that no two histories share anything the implementation could key on). After every
+// f_i: the result carries the parent's *current* configuration and selects what the model says; after every operation the
+// parent still carries what the model says it carries and every result obtained earlier still carries what it was given.
+func c08ConfigHistories(ctx *core.Ctx, rep *core.Report, g lint.Registry, gdesc []lintDesc, idx *uint64) {
+	c1, e1 := lint.NewConfigFromString("[e_rsa_fermat_factorization]\nRounds = 11\n")
+	c2, e2 := lint.NewConfigFromString("[e_rsa_fermat_factorization]\nRounds = 12\n")
+	marker, e3 := lint.NewConfigFromString("[verif_marker]\nx = 2\n")
+	if e1 != nil || e2 != nil || e3 != nil {
+		rep.InternalError("C08 configuration histories: configurations do not parse")
+		return
+	}
+	cert := g.CertificateLints().Lints()[0].Name
+	opts := []lint.FilterOptions{
+		{IncludeSources: lint.SourceList{lint.CABFBaselineRequirements}},
+		{NameFilter: regexp.MustCompile(`^e_`)},
+		{IncludeNames: []string{cert}, ExcludeSources: lint.SourceList{lint.UnknownLintSource}},
+	}
+	A := []string{"f0", "f1", "f2", "p1", "p2", "rc"}
+	depth := 4
+	if !ctx.Quick() {
+		depth = 5
+	}
+	total := 1
+	for i := 0; i < depth; i++ {
+		total *= len(A)
+	}
+	type held struct {
+		r    lint.Registry
+		cfg  lint.Configuration
+		desc string
+	}
+	for n := 0; n < total; n++ {
+		*idx++
+		if !ctx.Mine(*idx) {
+			continue
+		}
+		if ctx.Expired() {
+			rep.Cap("C08 configuration histories: deadline reached at history %d of %d", n, total)
+			return
+		}
+		ops := make([]string, depth)
+		k := n
+		for i := depth - 1; i >= 0; i-- {
+			ops[i] = A[k%len(A)]
+			k /= len(A)
+		}
+		parent, err := g.Filter(lint.FilterOptions{NameFilter: regexp.MustCompile(fmt.Sprintf(".*|^zz_history_%d$", n))})
+		if err != nil || parent == nil {
+			rep.InternalError("C08 configuration histories: full copy of the global registry refused: %v", err)
+			return
+		}
+		pcfg := parent.GetConfiguration()
+		var results []held
+		art := map[string]interface{}{"op": "config_history", "ops": ops}
+		for i, op := range ops {
+			v := func(key, what string) {
+				rep.Violate("C08|config_history|"+key, fmt.Sprintf("%s [history %v on a full copy of the global registry, step %d]", what, ops[:i+1], i+1), art)
+			}
+			switch op[0] {
+			case 'f':
+				o := opts[op[1]-'0']
+				want, _ := refFilter(gdesc, o)
+				r, err := parent.Filter(o)
+				rep.Inc("validated")
+				if err != nil || r == nil {
+					v("error_unexpected", "valid options rejected")
+					break
+				}
+				if r.GetConfiguration() != pcfg {
+					v("configuration_not_inherited", "the filtered registry does not carry the configuration its source registry has at the time of the call ("+descOpts(o)+")")
+				}
+				for _, b := range compareRegistry(r, want) {
+					v("selection", b)
+				}
+				results = append(results, held{r, pcfg, descOpts(o)})
+			case 'p':
+				if op[1] == '1' {
+					pcfg = c1
+				} else {
+					pcfg = c2
+				}
+				parent.SetConfiguration(pcfg)
+			case 'r':
+				if len(results) > 0 {
+					results[len(results)-1].r.SetConfiguration(marker)
+					results[len(results)-1].cfg = marker
+				}
+			}
+			rep.Inc("transitions")
+			if parent.GetConfiguration() != pcfg {
+				v("parent_changed", "the source registry's configuration is not the one it was last given")
+				pcfg = parent.GetConfiguration()
+			}
+			// a registry handed out earlier is a registry of its own: it keeps what it inherited / was given —
+			// unless the implementation hands the same registry out twice, in which case "inherits" has already failed
+			for j := range results {
+				if results[j].r.GetConfiguration() != results[j].cfg {
+					same := false
+					for l := range results {
+						if l != j && results[l].r == results[j].r {
+							same = true
+						}
+					}
+					if same {
+						v("result_shared", "two Filter calls returned the same registry object, so configuring one result (or the source in between) shows through the other")
+					} else {
+						v("result_changed_later", "a registry returned earlier by Filter ("+results[j].desc+") changed its configuration without being configured")
+					}
+					results[j].cfg = results[j].r.GetConfiguration()
+				}
+			}
+		}
+		rep.Inc("states")
+		rep.Inc("config_histories")
+	}
 }
